@@ -209,7 +209,8 @@ def load_ignore_file(ctx, fn, tool):
     OK, ERR = (lambda x: interp.V("Result::Ok", [x])), (lambda x: interp.V("Result::Err", [x]))
     bad_line = ERR(interp.Opaque("stream did not contain valid UTF-8"))
     if tool == "hg":
-        lines = [OK("syntax: glob"), OK("# generated"), bad_line, OK(""), OK("*.tmp"), OK("   "), OK("syntax: regexp"), OK("^a")]
+        # (a file may return to a syntax it used before, and may name a pattern twice)
+        lines = [OK("syntax: glob"), OK("# generated"), bad_line, OK(""), OK("*.tmp"), OK("   "), OK("syntax: regexp"), OK("^a"), OK("syntax: glob"), OK("*.bak"), OK("*.tmp")]
     else:
         lines = [OK("# generated"), OK(""), bad_line, OK("*.log"), OK("   "), OK("!keep.log")]
 
@@ -314,8 +315,10 @@ def r4(ctx):
     # cannot be decoded (bytes that are not UTF-8, e.g. a Latin-1 comment) costs that line only - not the rest of the file
     for fn, tool in (("ignore::docker::parse_dockerignore", "docker"), ("ignore::hg::parse_hgignore", "hg")):
         got, why = load_ignore_file(ctx, fn, tool)
-        want = [("*.tmp", "Glob"), ("^a", "Regexp")] if tool == "hg" else [("*.log", None), ("!keep.log", None)]
-        ok = got == want
+        want = [("*.tmp", "Glob"), ("^a", "Regexp"), ("*.bak", "Glob"), ("*.tmp", "Glob")] if tool == "hg" else [("*.log", None), ("!keep.log", None)]
+        # a pattern named twice may be kept once (the verdict is the same); the syntax in force for each pattern is what counts
+        dedup_ = lambda l_: list(dict.fromkeys(l_)) if isinstance(l_, list) else l_
+        ok = got == want or (tool == "hg" and dedup_(got) == dedup_(want))
         ctx.obligation(ok)
         if not ok:
             if why:
